@@ -39,7 +39,11 @@ struct Buffer {
 }
 
 impl Buffer {
-    fn enqueue(&mut self, msg: Message, con: Connection) {
+    fn enqueue(&mut self, msg: Message, mut con: Connection) {
+        // The queued connection leads through this very channel. Do not keep a
+        // strong reference to it in its own buffer, else channel and buffered
+        // messages keep each other alive once the simulation is dropped.
+        con.channel = None;
         self.acc_bytes += msg.length();
         self.packets.push_back((msg, con));
     }
